@@ -134,4 +134,5 @@ UNIT = Unit('state_analyzer', PRELUDE, CV + fns, consts=PC.UNINIT + PC.CONSTS + 
 UNIT.const_rules = PC.CONST_RULES
 UNIT.enums = PC.ENUMS
 UNIT.facts = PC.FACTS + SX.CB_FACTS
+UNIT.typedefs = PC.RT_TYPEDEFS
 apply_spec(UNIT.fns, os.path.join(HERE, '..', 'contracts', 'state_analyzer.spec'))
